@@ -45,7 +45,7 @@ class Run:
     """one observer on one scratch universe"""
 
     def __init__(self, recursive=True, full=False, as_bytes=False, root_spelling=None, small_reads=False, vanish_at=None,
-                 rm_fault_at=None):
+                 rm_fault_at=None, gate_reads=False):
         from watchdog.observers import inotify_c
         from watchdog.observers.inotify import InotifyObserver
 
@@ -58,6 +58,25 @@ class Run:
         # (b) a transient fault: the directory the library is about to watch vanishes just before the k-th
         #     follow-up inotify_add_watch (another process removed it) - substituted module-level name
         self._ic = inotify_c
+        # (a') holding the reader off completely: its os.read() of the inotify descriptor waits while a burst is issued, so
+        #      that ONE read returns the records of the whole burst (holding `Inotify._lock` alone lets it read the first
+        #      record on its own and only delays the translation) - the module's name `os` is substituted by a proxy
+        self.gate = threading.Event()
+        self.gate.set()
+        self.gate_reads = gate_reads
+        self._real_os = inotify_c.os
+        run = self
+
+        class _OsProxy:
+            def __getattr__(self, name, _real=self._real_os):
+                return getattr(_real, name)
+
+            def read(self, fd, n, _real=self._real_os):
+                run.gate.wait(10)
+                return _real.read(fd, n)
+
+        if gate_reads:
+            inotify_c.os = _OsProxy()
         self._real_add_watch = inotify_c.inotify_add_watch
         self.add_calls = 0
         self.vanished = []
@@ -175,9 +194,13 @@ class Run:
         start = len(self.rec.events)
         applied = []
         with self.reader_lock():
-            for op in ops:
-                if self.uni.apply(op):
-                    applied.append(op)
+            self.gate.clear()
+            try:
+                for op in ops:
+                    if self.uni.apply(op):
+                        applied.append(op)
+            finally:
+                self.gate.set()
         ok = True
         if self.root_exists():
             ok = fsops.drain(self.uni, self.rec, timeout=8.0) and fsops.drain(self.uni, self.rec, timeout=8.0)
@@ -201,6 +224,8 @@ class Run:
         finally:
             threading.excepthook = self._old_hook
             self._kwd["event_buffer_size"] = self._old_size
+            self._ic.os = self._real_os
+            self.gate.set()
             self._ic.inotify_add_watch = self._real_add_watch
             self._ic.inotify_rm_watch = self._real_rm_watch
             self.uni.cleanup()
@@ -516,6 +541,7 @@ def gen_paced(r, n):
     outside = {"O/d": ({"O/d", "O/d/dd"}, {"O/d/dd/b"})}
     bursts = []
     used = 0
+    vacated = []         # names that were in use and were renamed / moved away: made again later
 
     def rekey(old, new):
         nonlocal dirs, files
@@ -532,6 +558,10 @@ def gen_paced(r, n):
                 if base.count("/") >= 5:
                     continue
                 name = f"{base}/g{used}_{i}"
+                again = [v for v in vacated if v not in dirs and v not in files and v not in newd and
+                         (v.rsplit("/", 1)[0] in dirs or v.rsplit("/", 1)[0] in newd)]
+                if again and r.random() < 0.4:
+                    name = r.choice(again)
                 if r.random() < 0.6:
                     ops.append(("mkdir", name)); newd.append(name)
                 else:
@@ -551,7 +581,7 @@ def gen_paced(r, n):
                     ops.append((r.choice(["write", "chmod"]), r.choice(fl)))
                 elif c < 0.75:
                     f = r.choice(fl); g = r.choice(sorted(dirs)) + f"/m{used}_{i}"
-                    ops.append(("rename", f, g)); files.discard(f); files.add(g); fl.remove(f); fl.append(g)
+                    ops.append(("rename", f, g)); files.discard(f); files.add(g); fl.remove(f); fl.append(g); vacated.append(f)
                 else:
                     f = r.choice(fl); ops.append(("unlink", f)); files.discard(f); fl.remove(f)
             bursts.append(ops)
@@ -561,11 +591,11 @@ def gen_paced(r, n):
             if c < 0.35 and sub:                 # rename a directory tree inside the tree
                 d = r.choice(sub)
                 tgt = r.choice(sorted(q for q in dirs if not (q == d or q.startswith(d + "/")))) + f"/r{used}"
-                bursts.append([("rename", d, tgt)]); rekey(d, tgt)
+                bursts.append([("rename", d, tgt)]); rekey(d, tgt); vacated.append(d)
             elif c < 0.55 and sub:               # move a directory tree out
                 d = r.choice(sub)
                 o = f"O/x{used}"
-                bursts.append([("rename", d, o)])
+                bursts.append([("rename", d, o)]); vacated.append(d)
                 outside[o] = ({o + q[len(d):] for q in dirs if q == d or q.startswith(d + "/")},
                               {o + q[len(d):] for q in files if q.startswith(d + "/")})
                 dirs = {q for q in dirs if not (q == d or q.startswith(d + "/"))}
@@ -584,9 +614,9 @@ def gen_paced(r, n):
     return init, bursts
 
 
-def run_bursts(init_ops, bursts, recursive=True, full=False, small_reads=False, vanish_at=None, rm_fault_at=None):
+def run_bursts(init_ops, bursts, recursive=True, full=False, small_reads=False, vanish_at=None, rm_fault_at=None, gate_reads=False):
     """every burst is issued while the reader is held off; returns the delivered events per burst, the trees and probes"""
-    r = Run(recursive, full, False, small_reads=small_reads, vanish_at=vanish_at, rm_fault_at=rm_fault_at)
+    r = Run(recursive, full, False, small_reads=small_reads, vanish_at=vanish_at, rm_fault_at=rm_fault_at, gate_reads=gate_reads)
     try:
         for op in init_ops:
             r.uni.apply(op)
